@@ -205,4 +205,19 @@ CHECKS = {
             P("TestC16_KnownFindings"),
         ],
     ),
+    "C07": dict(
+        level="fault_enumeration",
+        rule=("Client.Get of an uncached client against the scripted node, for every data plan the planner can produce (h, b, l, l+h, l+b, r, r+h, r+b, t, t+b, r+t+b). SingleOperator (exhaustive): for ranges of limit 1..2 (thorough 1..3), every HTTP request of the call x every operator "
+              "{drop / duplicate / swap a batch element, null a result, add an error member, renumber a block, break a parent hash, change a block hash, drop / duplicate / reorder / renumber / re-index an item (log, receipt, trace) inside a result list, HTTP 5xx, invalid JSON, closed connection, body truncated at 1/41/401 bytes} x every position x 4 arguments. "
+              "Combined: rapid, 1-3 operators at generated positions, limit 1..6. Oracle, judged against the responses AS SERVED (recorded after mutation, parsed by the harness): error members, null/missing results, short batches, out-of-range or mixed block numbers, wrong numbering or broken links of served blocks, transport failures => an error is mandatory; "
+              "otherwise the returned blocks are exactly start..start+limit-1 with the served hashes, hash-linked, and every served log/receipt/trace naming an in-range block and transaction is attached, unchanged, under that block and transaction and nothing else is. No panic. non-trivial = the corrupted response still parsed as JSON (the client's own validation had to decide)."),
+        exhaustive_keys=["SingleOperator:exhaustive_single_operator"],
+        assumptions=["surplus batch elements beyond the requested ones and reordered receipt batches are allowed to succeed when the returned data is exactly the served data",
+                     "two receipts claiming the same (block, transaction) identity are exempt from the completeness clause"],
+        units=[
+            P("TestC07_SingleOperator", shards=11),
+            R("TestC07_Combined", 16000, 400000, shards=16),
+            F("FuzzC07", "90s"),
+        ],
+    ),
 }
